@@ -118,6 +118,12 @@ def eval_history(inp):
             h.add_node(new, element='C')
             h.add_edge(sorted(h.nodes)[0], new, order=1)
             continue
+        if kind == 'permute':
+            # the caller renumbers the graph with a permutation of the same labels (a new graph object that shares
+            # the graph-level attribute dict with the old one)
+            old = sorted(h.nodes)
+            h = nx.relabel_nodes(h, dict(zip(old, old[1:] + old[:1])))
+            continue
         try:
             if kind.startswith('draw'):
                 import matplotlib
@@ -158,6 +164,8 @@ def run_history(task, R):
             ex.states += 1
             ex.transitions += 3
             inp = {'graph': 'tree%d' % task['index'], 'history': [list(op), ['grow', 0], list(op)], 'relabel': rl}
+            R.record(inp, eval_history(inp))
+            inp = {'graph': 'tree%d' % task['index'], 'history': [list(op), ['permute', 0], list(op)], 'relabel': rl}
             R.record(inp, eval_history(inp))
     R.add_explorer(ex)
 
